@@ -200,7 +200,12 @@ def _str_to_set(
     if isinstance(value, str):
         return {value}
     if hasattr(value, "__iter__"):
-        return set(value)
+        try:
+            return set(value)
+        except TypeError:
+            # Unhashable items (nested arrays or tables). Hand the value to the
+            # validator as-is; it reports the wrong type.
+            return value  # type: ignore
     return {value}
 
 
@@ -210,7 +215,7 @@ def _str_to_set_of_expr(value: Any) -> set[Expression]:
     for expression in value:
         try:
             result.add(_LICENSING.parse(expression))
-        except (ExpressionError, ParseError) as error:
+        except (ExpressionError, ParseError, TypeError) as error:
             raise GlobalLicensingParseValueError(
                 _("Could not parse '{expression}'").format(
                     expression=expression
@@ -413,6 +418,15 @@ class ReuseTOML(GlobalLicensing):
         new_dict["source"] = source
 
         annotation_dicts = values.get("annotations", [])
+        if not isinstance(annotation_dicts, list) or not all(
+            isinstance(annotation, dict) for annotation in annotation_dicts
+        ):
+            raise GlobalLicensingParseTypeError(
+                _(
+                    "'annotations' must be an array of tables (got {value})."
+                ).format(value=repr(annotation_dicts)),
+                source=source,
+            )
         try:
             annotations = [
                 AnnotationsItem.from_dict(annotation)
